@@ -790,16 +790,9 @@ impl Engine for RegSim {
                                     break;
                                 }
                             }
-                            if let (Some(want), Ok(got)) = (model_steps, ctxs[c].get().steps(h).map(|s| s.len())) {
-                                if want != got {
-                                    rec.violate(
-                                        "I-res",
-                                        "the step list of a new operator is not that of the definition it resolves to",
-                                        format!("event {} ctx{} op('{}'): {} steps reported, the resolved definition has {}", k, c, def, got, want),
-                                    );
-                                    break;
-                                }
-                            }
+                            // (what the step list of a new operator looks like is not C18's subject --
+                            // only that it never changes afterwards, which the fingerprint covers)
+                            let _ = model_steps;
                             let fp = match fingerprint(ctxs[c].get(), h, k as u64) {
                                 Ok(f) => f,
                                 Err(p) => {
